@@ -128,6 +128,7 @@ type c15Env struct {
 	made       map[phase0.BLSSignature]c15SignReq // every signature handed out
 	selSigs    map[[2]uint64]phase0.BLSSignature  // (validator, subcommittee) -> selection signature handed out
 	nilSeen    int                                // requests that named a nil account
+	selDelay   int64                              // the signer takes this long over a batch of selection proofs
 }
 
 func newC15Env() *c15Env {
@@ -214,6 +215,9 @@ func (a *c15Acct) SignBeaconAttestations(_ context.Context, _ uint64, _ []e2wtyp
 func (a *c15Acct) SignGenericMulti(_ context.Context, accounts []e2wtypes.Account, data [][]byte, domain []byte) ([]e2types.Signature, error) {
 	if len(data) != len(accounts) {
 		return nil, errors.New("number of data items does not match number of accounts")
+	}
+	if len(domain) >= 4 && domain[0] == 0x08 && a.env.selDelay > 0 {
+		mc.Sleep(a.env.selDelay)
 	}
 	sigs := make([]e2types.Signature, len(accounts))
 	for i := range accounts {
@@ -456,6 +460,7 @@ type c15WorldCfg struct {
 	delay     time.Duration
 	noCtrl    bool              // only the messenger (selection part)
 	before    func(w *c15World) // scripts the stand-ins before the controller is constructed
+	waited    bool              // controller option WaitedForGenesis: vouch was started before genesis and begins with the chain
 }
 
 func c15Build(cfg c15WorldCfg) *c15World {
@@ -528,6 +533,7 @@ func c15Build(cfg c15WorldCfg) *c15World {
 	)
 	must(err)
 	w.ctrl, err = standardcontroller.New(w.ctx,
+		standardcontroller.WithWaitedForGenesis(cfg.waited),
 		standardcontroller.WithLogLevel(zerolog.Disabled),
 		standardcontroller.WithMonitor(nullmetrics.New()),
 		standardcontroller.WithSpecProvider(sp),
@@ -611,6 +617,7 @@ type c15WinState struct {
 	endSlot    uint64   // observation ends at the start of this slot
 	reorgSlot  uint64   // first slot of the epoch in which the current dependent root changes (0: no reorg)
 	desc       string
+	waited     bool // vouch waited for genesis and starts with the chain (clock at slot 0 of a chain with Altair from the start)
 }
 
 func c15WindowBody(st *c15WinState, epp, fork, s0 uint64) {
@@ -666,7 +673,10 @@ func c15WindowBody(st *c15WinState, epp, fork, s0 uint64) {
 		st.membership[st.target] = true
 		st.endSlot = (st.target + 1) * epp * c15SPE
 	}
-	w := c15Build(c15WorldCfg{spec: c15Spec(epp, fork, 16, 4, 16), startSlot: s0, positions: positions, delay: st.delay, before: func(w *c15World) {
+	if st.mode == "S" && s0 == 0 && fork == 0 {
+		st.waited = mc.Choose(2) == 1
+	}
+	w := c15Build(c15WorldCfg{spec: c15Spec(epp, fork, 16, 4, 16), startSlot: s0, positions: positions, delay: st.delay, waited: st.waited, before: func(w *c15World) {
 		w.duties.strict = st.strict
 		w.duties.member = st.membership
 		w.duties.armed = st.mode == "S" // mode D: the node has no duties for anybody while vouch starts
@@ -721,8 +731,8 @@ func c15WindowBody(st *c15WinState, epp, fork, s0 uint64) {
 			ps = append(ps, fmt.Sprint(p))
 		}
 	}
-	st.desc = fmt.Sprintf("EPOCHS_PER_SYNC_COMMITTEE_PERIOD=%d SLOTS_PER_EPOCH=%d ALTAIR_FORK_EPOCH=%d, clock at the start of slot %d (epoch %d), mode %s, members %v (of several, the last has exited and is not yet withdrawable) in the committee of period(s) %s, strict-node=%v, current dependent root changes in the epoch of slot %d (0: never)",
-		epp, c15SPE, fork, s0, e0, st.mode, st.members, strings.Join(ps, ","), st.strict, st.reorgSlot)
+	st.desc = fmt.Sprintf("EPOCHS_PER_SYNC_COMMITTEE_PERIOD=%d SLOTS_PER_EPOCH=%d ALTAIR_FORK_EPOCH=%d, clock at the start of slot %d (epoch %d), mode %s (waited for genesis: %v), members %v (of several, the last has exited and is not yet withdrawable) in the committee of period(s) %s, strict-node=%v, current dependent root changes in the epoch of slot %d (0: never)",
+		epp, c15SPE, fork, s0, e0, st.mode, st.waited, st.members, strings.Join(ps, ","), st.strict, st.reorgSlot)
 }
 
 func c15WindowCheck(st *c15WinState, r *mc.Result) mc.Verdict {
@@ -749,8 +759,9 @@ func c15WindowCheck(st *c15WinState, r *mc.Result) mc.Verdict {
 		for s := lo; s <= hi; s++ {
 			switch {
 			case s < s0 || s >= st.endSlot:
-			case s == s0 && st.mode == "S":
+			case s == s0 && st.mode == "S" && !st.waited:
 				// vouch is being started in this slot: whether the slot in progress is still served is left open
+				// (not so when it waited for genesis: the first slot begins with it)
 				optional[s] = true
 			default:
 				required[s] = p
@@ -855,6 +866,9 @@ func c15SortedKeys[V any](m map[uint64]V) []uint64 {
 // ---- independence -----------------------------------------------------------------------------------------------
 
 type c15IndState struct {
+	// lateSlow: vouch is started eleven seconds into the slot and the signer takes six seconds over a batch of
+	// selection proofs: the proofs of the next slot are still being signed when that slot's message time comes
+	lateSlow  bool
 	states    [3]int // per member: 0 ok, 1 account missing, 2 root signature missing
 	positions map[phase0.ValidatorIndex][]phase0.CommitteeIndex
 	node      *c15Node
@@ -876,8 +890,11 @@ const (
 )
 
 func c15IndBody(st *c15IndState, states [3]int) {
-	*st = c15IndState{states: states}
+	*st = c15IndState{states: states, lateSlow: st.lateSlow}
 	st.positions = c15IndPositions[mc.Choose(len(c15IndPositions))]
+	if st.lateSlow {
+		mc.Sleep(int64(11 * time.Second))
+	}
 	const s0 = 10 // epoch 5 of 4-epoch periods: mid period 1
 	st.slots = []uint64{s0 + 1, s0 + 2, s0 + 3}
 	w := c15Build(c15WorldCfg{spec: c15Spec(4, 0, c15IndSize, c15IndSubnets, c15IndTarget), startSlot: s0, positions: st.positions, real: true, delay: 4 * time.Second, before: func(w *c15World) {
@@ -895,9 +912,12 @@ func c15IndBody(st *c15IndState, states [3]int) {
 		}
 		w.duties.member = map[uint64]bool{1: true, 2: true}
 		w.duties.armed = true
+		if st.lateSlow {
+			w.env.selDelay = int64(6 * time.Second)
+		}
 	}})
 	defer w.cancel()
-	mc.Sleep(4*int64(c15SlotDur) - int64(time.Second))
+	mc.Sleep(4*int64(c15SlotDur) - int64(time.Second) - mc.Now())
 	st.node, st.env = w.node, w.env
 	names := []string{"ok", "account missing", "root signature missing"}
 	st.desc = fmt.Sprintf("members 1,2,3 with committee positions %v; member states [%s, %s, %s]; vouch started at slot %d, slots %v observed",
@@ -1197,6 +1217,15 @@ func c15Units(tier string) []hx.Unit {
 				})
 			}
 		}
+	}
+	{
+		st := &c15IndState{lateSlow: true}
+		units = append(units, hx.Unit{
+			Name:  "C15/independence/late-start+slow-selection-signer",
+			Cfg:   mc.Config{Fixed: true, Horizon: int64(6 * c15SlotDur)},
+			Body:  func() { c15IndBody(st, [3]int{0, 0, 0}) },
+			Check: func(r *mc.Result) mc.Verdict { v := c15IndCheck(st, r); v.Nontrivial = true; return v },
+		})
 	}
 	// selection
 	cfgs := []c15SelCfg{{512, 4, 16}, {16, 4, 16}, {32, 4, 2}, {64, 4, 16}, {128, 4, 4}}
